@@ -1,6 +1,7 @@
 import Batteries.Tactic.Alias
 import GenlmModel.Proofs.CfgBytes
 import GenlmModel.Proofs.Wfsa2
+import GenlmModel.Proofs.LimWfsa
 /-! # C17 — automaton→grammar and byte-level conversions preserve weights -/
 namespace Genlm.Props.C17
 /-- right-recursive grammar: derivation sums = path sums, provided state names are disjoint from the
@@ -16,4 +17,8 @@ alias to_bytes_epsfree := Genlm.toBytes_epsFree
 alias cfg_to_bytes := Genlm.cfgToBytes_WN
 alias cfg_to_bytes_not_encoding := Genlm.cfgToBytes_WN_not_encoding
 alias cfg_to_bytes_prefix_free := Genlm.cfgToBytes_WN_prefixFree
+
+/-! ## at the limit (ℝ≥0∞): machines with ε cycles -/
+alias to_cfg_right_limit := Genlm.toCfgRight_WL
+alias to_cfg_left_limit := Genlm.toCfgLeft_WL
 end Genlm.Props.C17
